@@ -17,6 +17,10 @@ CLAIMED = {
    "Lean 4 theorems about the model of StringToBody (bufio.ScanLines tokens, wrapLen, CRLF, go-charset ISO-8859-1 translation), for ALL texts whose characters are ≤ U+00FF and lines of ANY length: lines_crlf_le_1000 (the body is a concatenation of LF-free lines of ≤ 998 bytes each followed by CRLF), body_preserves_text (removing CR/LF from stored body and from the translated input gives identical bytes), representable_covered (every Latin-1 text meets the hypothesis), kernel-evaluated witness for the multi-byte wrap. Tie: correspondence of the real StringToBody/SetBody with the Lean driver on boundary line lengths (998, 1996, 64 KiB, 200-700 KB), 2-byte characters at every offset 990..1000, random documents and a malformed stream; an independent Go oracle judges the real output.",
    "bufio.Scanner, go-charset's code-page translator and utf8.DecodeRune are modelled (Std/Utf8.lean, Msg/Body.lean) and differential-checked, not verified; Body header/BodySize equality is checked by the oracle on the real code only; trusted: Lean kernel, harness, driver shell",
    "Lean 4 proof over hand-written model + differential correspondence", "5.18"),
+ "C19": ("proof",
+   "Lean 4 theorems about the model of ParseURL's own logic and of the dialer registry: parse_compose (a path composed of any digipeater list and target parses into exactly those components, upper-cased, in order; host parameter overrides host), short_target_refused, digis_refused (ardop/telnet), registry_seq (after ANY register/unregister history dial reaches the dialer registered last for the scheme or reports missing), dial_after_register/unregister, mutex_guarded (regenerated fact: every access to the dialer map in /repo's current source lies between mu.Lock and mu.Unlock, by decide). Tie: the real url.Parse output is fed to the Lean model and the final results diffed on composed tuples, raw/mutated strings and registry histories; an independent Go oracle checks exact components end-to-end and recovers panics.",
+   "net/url.Parse is an external call (stdlib, trusted): the theorem starts from its result, the end-to-end composition with url.Parse is checked by the oracle on generated tuples only; strings.ToUpper modelled for ASCII paths (non-ASCII paths are judged by the oracle only); concurrency is reduced to the atomic-step model by the regenerated mutex fact (straight-line lock discipline) - a -race run is witness search only; trusted: Lean kernel, extractor, harness, driver shell",
+   "Lean 4 proof over hand-written model + regenerated mutex facts + differential correspondence", "5.19"),
 }
 PENDING_REASON = "check not yet built in this session (construction order DESIGN.md §7); not claimed until its model, theorems and correspondence run exist"
 
